@@ -17,4 +17,5 @@ Extraction "../ocaml/gen/c04_model.ml"
   Shape.s_oracle Shape.sempty Shape.order_for Shape.alloc_for
   ShapeInst.key_sep_left ShapeInst.key_sep_bytes ShapeInst.key_sep_str
   ShapeInst.m_insert ShapeInst.m_delete ShapeInst.m_tree_checkb
+  ShapeInst.m_retain_in ShapeInst.m_extract_new ShapeInst.m_extract_next ShapeInst.m_extract_close
   Mutator.leaf_required Mutator.leaf_bytes Mutator.branch_required.
